@@ -131,51 +131,54 @@ def _local_shape(rep, rule, model, cls, run, result, roles, tag=""):
 
 
 def _local_axes(rep, rule, model, cls, run, result, tag=""):
-    """2-tensors: the local matrix index [a, b] that tolocal() hands out is
-    (row, column): the slot written as data[a, b, :] must be scattered to
-    the rows element_dofs[a] and the columns element_dofs[b] - otherwise
-    every local matrix is the transpose of the block of the global matrix
-    it stands for (inverse() and fromlocal() still round-trip, which is why
-    only this obligation sees it)."""
+    """N-tensors (N >= 2): the local index [a, b, ...] that tolocal() hands
+    out follows the axes of the global tensor: the slot written as
+    data[a, b, ..., :] must be scattered to index row r = element_dofs[<r-th
+    leading index>] for every r - otherwise every local tensor is a
+    transpose of the block of the global tensor it stands for (inverse() and
+    fromlocal() still round-trip, which is why only this obligation sees
+    it)."""
     from ..asm import DofRow, IndexStack
     idx, data, shape, lshape = result
-    if len(lshape) != 2:
+    nd = len(lshape)
+    if nd < 2:
         return
     c = model.class_by_name(cls)
     path, line = c.path, c.methods["_assemble"].lineno
     name = f"{cls}._assemble{('[' + tag + ']') if tag else ''}"
-    if not isinstance(idx, IndexStack) or len(idx.rows) != 2:
+    if not isinstance(idx, IndexStack) or len(idx.rows) != nd:
         raise AnalysisError(f"{name}: index arrays not recognised")
     dblocks, _ = run.blocks(data)
     buf = data.buf if isinstance(data, FlatBuf) else data
     pos = {}
-    for k, which in enumerate(("row", "column")):
+    for k in range(nd):
         bl, _ = run.blocks(idx.rows[k])
         for b in bl:
             if not isinstance(b.value, DofRow):
-                raise AnalysisError(f"{name}: {which} index value "
+                raise AnalysisError(f"{name}: index row {k} holds "
                                     f"{b.value!r}")
-            pos.setdefault((b.base, b.length), {})[which] = b.value.i
+            pos.setdefault((b.base, b.length), {})[k] = b.value.i
     bad, n = [], 0
     for (ix, v, th), b in zip(buf.stores, dblocks):
         lead = [int(k) for k in ix if isinstance(k, (int, Fraction))]
-        if len(lead) != 2:
+        if len(lead) != nd:
             raise AnalysisError(f"{name}: data store {ix!r}")
         rc = pos.get((b.base, b.length))
-        if rc is None or set(rc) != {"row", "column"}:
-            raise AnalysisError(f"{name}: no row/column indices stored for "
-                                f"the slot of data{lead}")
+        if rc is None or set(rc) != set(range(nd)):
+            raise AnalysisError(f"{name}: no index rows stored for the "
+                                f"slot of data{lead}")
         n += 1
-        if (rc["row"], rc["column"]) != tuple(lead):
-            bad.append((lead, rc["row"], rc["column"]))
+        got = [rc[k] for k in range(nd)]
+        if got != lead:
+            bad.append((lead, got))
     _v(rep, rule, not bad and n > 0, f"{name}:local-axes",
-       f"{n} slots: data[a, b, :] is scattered to rows element_dofs[a], "
-       f"columns element_dofs[b] - tolocal()[k][a, b] is the (row a, column "
-       f"b) entry of cell k's block", path, name,
-       (f"data{bad[0][0]} is scattered to rows element_dofs[{bad[0][1]}] "
-        f"and columns element_dofs[{bad[0][2]}]: the local matrices "
-        f"tolocal() returns are the transposes of the blocks of the global "
-        f"matrix ({len(bad)} of {n} slots)") if bad else "no slots", line)
+       f"{n} slots: data[a, b, ...] is scattered to index row r = "
+       f"element_dofs[r-th leading index] - tolocal()[k][a, b, ...] is the "
+       f"(a, b, ...) entry of cell k's block", path, name,
+       (f"data{bad[0][0]} is scattered to element_dofs{bad[0][1]} of the "
+        f"index rows: the local tensors tolocal() returns are transposes "
+        f"of the blocks of the global tensor ({len(bad)} of {n} slots)")
+       if bad else "no slots", line)
 
 
 class AxArr:
@@ -903,6 +906,10 @@ _LOCS = """            self.doflocs = np.array([
 _AS = "skfem/assembly/__init__.py"
 _ADI = "skfem/autodiff/__init__.py"
 MUTANTS = [
+    ("trilinear data stored with the axes reversed again",
+     ("skfem/assembly/form/trilinear_form.py",
+      "                    data[i, j, k] = self._kernel(",
+      "                    data[k, j, i] = self._kernel("), None),
     ("tolocal adds facet matrices with a fancy-index +=",
      ("skfem/assembly/form/coo_data.py",
       "            np.add.at(out, basis.tind, local)",
